@@ -198,7 +198,7 @@ def wrap_in_experimental_value(operand) -> "dt.ExperimentalValue":
 
     """
 
-    if isinstance(operand, Real):
+    if isinstance(operand, (Real, np.bool_)):  # (np.vectorize hands a Python bool on as np.bool_)
         # plain Python numbers: a narrow numpy scalar (float32, float16, int8 ...) would drag the whole
         # calculation down to its precision, and numpy's functions do not understand Fractions
         return dt.Constant(int(operand) if isinstance(operand, Integral) else float(operand))
